@@ -209,7 +209,7 @@ def run(model, col, tier):
     sub = Collector("C04")
     c04.run(model, sub, "quick")
     for ob in sub.obligations:
-        if ob.rule in ("R04.5", "R04.6", "R04.8"):
+        if ob.rule in ("R04.5", "R04.6", "R04.8") or (ob.rule == "R04.2" and "marks what it types as a swizzle" in ob.construct):
             ob.rule = "R05.9"
             col.obligations.append(ob)
     sub = Collector("C02")
@@ -233,6 +233,7 @@ def run(model, col, tier):
     from . import c10
 
     c10.check_compat_guards(model, col, "R05.9")
+    c10.check_exported_unique(model, col, "R05.8")
     from . import c09 as _c09
 
     _c09.check_builtin_names(model, col, "R05.9")
